@@ -217,6 +217,28 @@ func cmdCheck(args []string) int {
 	for _, m := range sel {
 		selDirs[m.PkgDir] = true
 	}
+	// a harness file may depend on accessor files injected into other packages:
+	// a line `// verif:needs <repo-relative dir> ...` anywhere in a file of a
+	// selected directory selects those directories too (to a fixpoint)
+	for changed := true; changed; {
+		changed = false
+		for virt, data := range overlay {
+			rel, _ := filepath.Rel(repoDir, virt)
+			if !selDirs[filepath.Dir(rel)] {
+				continue
+			}
+			for _, line := range strings.Split(string(data), "\n") {
+				if rest, ok := strings.CutPrefix(strings.TrimSpace(line), "// verif:needs "); ok {
+					for _, d := range strings.Fields(rest) {
+						if !selDirs[d] {
+							selDirs[d] = true
+							changed = true
+						}
+					}
+				}
+			}
+		}
+	}
 	for virt := range overlay {
 		rel, _ := filepath.Rel(repoDir, virt)
 		d := filepath.Dir(rel)
